@@ -39,6 +39,7 @@ WellFormed(e) ==
 
 FinalSymptom(s, fmt) ==
   IF s.out = "panic" THEN "panic"
+  ELSE IF s.out = "stack" THEN "stack"
   ELSE IF s.out = "abort" \/ s.peak > AllocBoundKiB(L, Decomp(fmt)) THEN "alloc"
   ELSE "none"
 \* vectors come back from JSON as records over the head format's field names
